@@ -1,7 +1,338 @@
-//! C42 — not implemented yet.
-use vmon::report::Args;
+//! C42 — a copied table root is a complete, identical table.
+//!
+//! Histories on a local temp directory (plain `Dataset::write` on a file path, no store wrapper,
+//! no branches / shallow clones); then every file under the root is copied byte-for-byte with
+//! std::fs to another directory, the original is deleted, the copy is opened with a fresh Session
+//! and every version, index query and tag is compared with what the original showed.
+use crate::hist::{Env, Hist, HistCfg, Loc, OpKind, Weights};
+use crate::snap::{diff, take_snapshot};
+use crate::walker::{walk, RawStore};
+use futures::TryStreamExt;
+use lance::dataset::ReadParams;
+use lance::session::Session;
+use lance::Dataset;
+use serde_json::json;
+use std::collections::{BTreeMap, BTreeSet};
+use std::sync::Arc;
+use vmon::prng::Rng;
+use vmon::report::{Args, Report};
+use vmon::table::{batches_to_rows, Cell};
 
-pub fn run(_args: &Args) -> i32 {
-    eprintln!("HARNESS-ERROR C42 not implemented");
-    2
+fn weights() -> Weights {
+    use OpKind::*;
+    vec![
+        (12, Append),
+        (2, Overwrite),
+        (7, DeleteIds),
+        (3, DeleteVal),
+        (5, Update),
+        (4, Upsert),
+        (6, Compact),
+        (7, CreateIndex),
+        (3, OptimizeIndices),
+        (3, AddColumn),
+        (2, DropColumn),
+        (3, AlterColumn),
+        (2, UpdateConfig),
+        (4, Restore),
+        (5, TagCreate),
+        (2, TagUpdate),
+        (1, TagDelete),
+        (3, ConcurrentDeletes),
+        (2, StaleWrite),
+        (2, Cleanup),
+    ]
+}
+
+pub fn run(args: &Args) -> i32 {
+    let report = Report::new(
+        args,
+        "exploration",
+        "case = seeded history (<=12 quick / <=40 thorough ops: appends, deletes, updates, merge_insert, compaction, scalar indices, schema changes, restore, tags, cleanup; no branches/clones) on a local directory; the root is copied file by file to a new directory, the original removed, the copy opened with a fresh Session. Compared: snapshot of every version (schema, ordered rows incl. _rowid, deletion vectors, config, index list), answers of indexed queries, tags, deep structural walk of the copied latest. Non-trivial = >=3 versions compared and the table has a deletion file, an index or a tag; distinct by (config, op kinds, outcomes).",
+        (70, 900),
+    )
+    .with_min_nontrivial(10);
+    let max_ops = args.tier.pick(12usize, 40);
+    let max_cases = args.tier.pick(3000u64, 100_000);
+    if let Some(c) = args.extra.get("case").and_then(|c| c.parse::<u64>().ok()) {
+        std::env::set_var("E_HIST_VERBOSE", "1");
+        let rt = tokio::runtime::Builder::new_current_thread().enable_all().build().unwrap();
+        rt.block_on(one_case(args.seed, c, max_ops, &report, args.extra.contains_key("selftest")));
+        return report.finish();
+    }
+    let selftest = args.extra.contains_key("selftest");
+    crate::hist::run_parallel(&report, args, 16, if selftest { 16 } else { max_cases }, 240, |i, report| {
+        Box::pin(one_case(args.seed, i, max_ops, report, selftest))
+    });
+    if selftest {
+        // in selftest mode the copy is corrupted on purpose: the oracle must have fired
+        let fired = report.n_violations() > 0;
+        println!("SELFTEST C42 {}", if fired { "ok: corrupted copies were flagged" } else { "FAILED: corrupted copies not flagged" });
+        return if fired { 0 } else { 2 };
+    }
+    report.finish()
+}
+
+fn copy_dir(from: &std::path::Path, to: &std::path::Path, files: &mut u64, bytes: &mut u64) -> std::io::Result<()> {
+    std::fs::create_dir_all(to)?;
+    for e in std::fs::read_dir(from)? {
+        let e = e?;
+        let ft = e.file_type()?;
+        let dst = to.join(e.file_name());
+        if ft.is_dir() {
+            copy_dir(&e.path(), &dst, files, bytes)?;
+        } else if ft.is_file() {
+            let data = std::fs::read(e.path())?;
+            *bytes += data.len() as u64;
+            *files += 1;
+            std::fs::write(&dst, data)?;
+        }
+    }
+    Ok(())
+}
+
+/// id sets answered by a battery of queries on indexed columns (plan must mention the index to count)
+async fn index_battery(ds: &Dataset, model: &crate::hist::Model) -> Vec<(String, bool, Result<BTreeSet<i64>, String>)> {
+    let mut out = vec![];
+    let cols: Vec<String> = model
+        .index_names
+        .iter()
+        .filter_map(|n| n.strip_suffix("_idx").map(|s| s.to_string()))
+        .filter(|c| model.cols.contains(c))
+        .collect();
+    for c in cols {
+        let pos = model.col(&c).unwrap();
+        let mut preds = vec![format!("{c} IS NULL"), format!("{c} IS NOT NULL")];
+        let mut seen = 0;
+        for r in model.rows.values() {
+            match &r[pos] {
+                Cell::Int(i) if seen < 2 => {
+                    preds.push(format!("{c} = {i}"));
+                    preds.push(format!("{c} >= {i}"));
+                    seen += 1;
+                }
+                Cell::Str(s) if seen < 2 && !s.contains('\'') => {
+                    preds.push(format!("{c} = '{s}'"));
+                    seen += 1;
+                }
+                _ => {}
+            }
+        }
+        for p in preds {
+            let mut sc = ds.scan();
+            let r = async {
+                sc.filter(&p).map_err(|e| e.to_string())?;
+                sc.project(&["id"]).map_err(|e| e.to_string())?;
+                let plan = sc.explain_plan(false).await.map_err(|e| e.to_string())?;
+                let st = sc.try_into_stream().await.map_err(|e| e.to_string())?;
+                let bs: Vec<arrow_array::RecordBatch> = st.try_collect().await.map_err(|e| e.to_string())?;
+                let ids: BTreeSet<i64> = batches_to_rows(&bs).iter().filter_map(|r| r[0].as_i64()).collect();
+                Ok::<_, String>((plan.contains("ScalarIndexQuery"), ids))
+            };
+            match crate::walker::guard(r).await {
+                Ok((used, ids)) => out.push((p, used, Ok(ids))),
+                Err(e) => out.push((p, false, Err(e))),
+            }
+        }
+    }
+    out
+}
+
+async fn one_case(seed: u64, case: u64, max_ops: usize, report: &Report, selftest: bool) {
+    let mut rng = Rng::for_case(seed, case);
+    let mut cfg = HistCfg::random(&mut rng);
+    cfg.allow_refs = false;
+    let n_ops = rng.urange(5, max_ops);
+    let w = weights();
+    let dir = match tempfile::Builder::new().prefix("e_hist-c42-").tempdir_in("/tmp") {
+        Ok(d) => d,
+        Err(e) => {
+            report.harness_error(&format!("tempdir: {e}"));
+            return;
+        }
+    };
+    let root = dir.path().join("orig").join("tbl");
+    std::fs::create_dir_all(root.parent().unwrap()).ok();
+    let uri = root.to_string_lossy().to_string();
+    let env = Env::Fs { session: Arc::new(Session::default()) };
+    let mut h = Hist::new(env, rng.clone(), cfg);
+    h.case = case;
+    let rec = h.create_table(&uri).await;
+    if !rec.outcome.is_ok() {
+        report.harness_error(&format!("case {case}: create failed: {}", rec.outcome.text()));
+        return;
+    }
+    for _ in 0..n_ops {
+        if !report.time_left() {
+            break;
+        }
+        let kind: OpKind = *rng.pick_weighted(&w);
+        h.step(kind).await;
+    }
+    let loc = Loc::main(&uri);
+    let Some(lin) = h.lin.get(&loc) else { return };
+    let snaps = lin.snaps.clone();
+    let model = lin.model.clone();
+    let tags: BTreeMap<String, u64> = h.tags.iter().map(|((_, n), (_, v))| (n.clone(), *v)).collect();
+    let battery_before = index_battery(&lin.head, &model).await;
+    let has_structure = snaps.values().any(|s| s.n_deleted > 0 || !s.indices.is_empty()) || !tags.is_empty();
+    // ---- copy, delete the original, open the copy
+    let copy_root = dir.path().join("copy").join("moved-tbl");
+    let (mut files, mut bytes) = (0u64, 0u64);
+    if let Err(e) = copy_dir(&root, &copy_root, &mut files, &mut bytes) {
+        report.harness_error(&format!("copy failed: {e}"));
+        return;
+    }
+    report.count("files_copied", files);
+    report.count("bytes_copied", bytes);
+    drop(h.lin.remove(&loc));
+    if let Err(e) = std::fs::remove_dir_all(&root) {
+        report.harness_error(&format!("remove original: {e}"));
+        return;
+    }
+    if selftest {
+        // corrupt the *copy*: drop one data or deletion file (an incomplete copy must be noticed)
+        let mut victims = vec![];
+        for sub in ["_deletions", "data"] {
+            if let Ok(rd) = std::fs::read_dir(copy_root.join(sub)) {
+                for e in rd.flatten() {
+                    victims.push(e.path());
+                }
+            }
+            if !victims.is_empty() {
+                break;
+            }
+        }
+        if let Some(v) = victims.first() {
+            let _ = std::fs::remove_file(v);
+        }
+    }
+    let copy_uri = copy_root.to_string_lossy().to_string();
+    let ctx = |extra: serde_json::Value| json!({"seed": seed, "case": case, "config": h.cfg.describe(), "detail": extra, "ops": h.ops_json(48)});
+    let fresh = || ReadParams { session: Some(Arc::new(Session::default())), ..Default::default() };
+    let mut compared = 0u64;
+    for (v, old) in &snaps {
+        let r = crate::walker::guard(async {
+            let ds = lance::dataset::builder::DatasetBuilder::from_uri(&copy_uri)
+                .with_read_params(fresh())
+                .with_version(*v)
+                .load()
+                .await
+                .map_err(|e| format!("open: {e}"))?;
+            take_snapshot(&ds, &RawStore::Fs).await
+        })
+        .await;
+        report.count("versions_compared_at_copy", 1);
+        report.count("rows_compared", old.rows.len() as u64);
+        compared += 1;
+        match r {
+            Ok(new) => {
+                if let Some((class, detail)) = diff(old, &new) {
+                    report.violation(
+                        &format!("copied-table-version-{class}"),
+                        &format!("v{v} read at the copy differs from the original"),
+                        ctx(json!({"version": v, "diff": detail})),
+                    );
+                }
+            }
+            Err(e) => {
+                report.violation(
+                    "copied-table-version-unreadable",
+                    &format!("v{v} cannot be read at the copy: {}", e.chars().take(300).collect::<String>()),
+                    ctx(json!({"version": v, "error": e})),
+                );
+            }
+        }
+    }
+    // latest: structure, indices, tags
+    match lance::dataset::builder::DatasetBuilder::from_uri(&copy_uri).with_read_params(fresh()).load().await {
+        Err(e) => {
+            report.violation("copied-table-cannot-be-opened", &e.to_string(), ctx(json!({})));
+        }
+        Ok(ds) => {
+            let wk = walk(&ds, &RawStore::Fs, true).await;
+            report.count("copied_latest_walked", 1);
+            if let Some((sig, d)) = wk.problems.first() {
+                // structural defects that exist at the original too are C05's subject; at the copy
+                // only what the move could cause is judged: missing / unreadable objects
+                if sig.contains("missing") || sig.contains("unreadable") || d.contains("ot found") {
+                    report.violation(&format!("copied-latest-{sig}"), d, ctx(json!({"problems": wk.problems})));
+                }
+            }
+            let battery_after = index_battery(&ds, &model).await;
+            for ((p, used_b, rb), (_, used_a, ra)) in battery_before.iter().zip(battery_after.iter()) {
+                report.count("index_queries_compared", 1);
+                if *used_b || *used_a {
+                    report.count("index_queries_using_scalar_index", 1);
+                }
+                match (rb, ra) {
+                    (Ok(b), Ok(a)) if a != b => {
+                        report.violation(
+                            "copied-table-index-query-differs",
+                            &format!("{p}: {} ids at the original, {} at the copy", b.len(), a.len()),
+                            ctx(json!({"query": p})),
+                        );
+                    }
+                    (Ok(_), Err(e)) => {
+                        report.violation(
+                            "copied-table-index-query-fails",
+                            &format!("{p}: {}", e.chars().take(200).collect::<String>()),
+                            ctx(json!({"query": p})),
+                        );
+                    }
+                    _ => {}
+                }
+            }
+            match ds.tags().list().await {
+                Ok(m) => {
+                    let got: BTreeMap<String, u64> = m.iter().map(|(k, v)| (k.clone(), v.version)).collect();
+                    report.count("tags_compared", tags.len() as u64);
+                    if got != tags {
+                        report.violation(
+                            "copied-table-tags-differ",
+                            &format!("tags at the copy {:?}, at the original {:?}", got, tags),
+                            ctx(json!({})),
+                        );
+                    }
+                    for (name, v) in &tags {
+                        if !snaps.contains_key(v) {
+                            continue;
+                        }
+                        match ds.checkout_version(name.as_str()).await {
+                            Ok(t) if t.manifest().version == *v => {}
+                            Ok(t) => {
+                                report.violation(
+                                    "copied-table-tag-resolves-elsewhere",
+                                    &format!("tag {name} -> v{} at the copy, v{v} at the original", t.manifest().version),
+                                    ctx(json!({})),
+                                );
+                            }
+                            Err(e) => {
+                                report.violation("copied-table-tag-checkout-fails", &format!("tag {name}: {e}"), ctx(json!({})));
+                            }
+                        }
+                    }
+                }
+                Err(e) => {
+                    report.violation("copied-table-tags-unlistable", &e.to_string(), ctx(json!({})));
+                }
+            }
+        }
+    }
+    if std::env::var("E_HIST_VERBOSE").is_ok() {
+        println!("config: {}", h.cfg.describe());
+        for s in &h.steps {
+            println!("{}", s.brief());
+        }
+        for p in &h.problems {
+            println!("PROBLEM {p}");
+        }
+    }
+    h.count_ops(report);
+    let nontrivial = compared >= 3 && has_structure;
+    report.case(if nontrivial { Some(h.shape_sig()) } else { None });
+    if report.want_sample() && nontrivial {
+        report.sample(json!({"case": case, "config": h.cfg.describe(), "versions_compared": compared, "files_copied": files,
+                             "tags": tags, "indices": model.index_names, "ops": h.ops_json(12)}));
+    }
 }
